@@ -5,3 +5,4 @@ import SmtpV.Props.C06
 #print axioms SmtpV.Props.data_monitor_accepts_model
 #print axioms SmtpV.Props.C06.C06_chunk_over_limit
 #print axioms SmtpV.Props.C06.C06_declared_size_refused
+#print axioms SmtpV.Props.C06.C06_accepted_chunk_bounded
